@@ -82,7 +82,7 @@ extern "C" void sim_set_wait_limit(uint64_t m) { g_wait_limit = m; }
 static void after_wait(struct sim_wait_info *wi) {
   wi->ordinal = ++sim_wait_count;
   if (sim_wait_count > g_wait_limit)
-    verif_fail("harness/wait-spin", "more than %llu waits in one case", (unsigned long long)g_wait_limit);
+    verif_fail("harness/wait-spin", "more than %llu waits in one case (last wait: kind=%d timeout_us=%lld nready=%d)", (unsigned long long)g_wait_limit, wi->kind, (long long)wi->timeout_us, wi->nready);
   int64_t adv;
   if (g_wait_hook) adv = g_wait_hook(wi, g_wait_arg);
   else if (wi->nready > 0) adv = 0;
@@ -312,6 +312,7 @@ static void *m_realloc(void *p, size_t sz) {
   sim_mem_live_bytes += (int64_t)sz - (int64_t)h->size; h->magic = 0; free(h); return n + 1;
 }
 extern "C" void sim_mem_install(void) { static int done; if (done) return; done = 1; event_set_mem_functions(m_malloc, m_realloc, m_free); }
+extern "C" void sim_mem_free(void *p) { static int inst; (void)inst; m_free(p); }
 extern "C" void sim_mem_fail_at(uint64_t nth, int sticky) { g_fail_at = nth ? sim_mem_calls + nth : 0; g_fail_sticky = sticky; }
 
 // =============================================================== lock monitor
